@@ -15,7 +15,7 @@ def register(reg, prog):
         'context': Ref('ContextI'), '_token': INT,
         'outgoing_requests': Opt(Dict(OKEY, Ref('PipeI'), 'tm.outgoing')),
         'incoming_requests': Opt(Dict(OKEY, Tuple(Ref('PipeI'), CALLABLE), 'tm.incoming')),
-        'loop': Ref('Loop'), 'token_interface': Ref('TokenInterfaceI')})
+        'loop': Ref('Loop'), 'token_interface': Ref('TokenInterfaceI'), 'log': ANY})
     F = reg.classes['TokenManager'].fields
     reg.declare_class('PipeI', 'aiocoap.pipe:Pipe', opaque=True, fields={'request': Ref('Message')})
     reg.declare_class('ContextI', 'aiocoap.protocol:Context', opaque=True)
@@ -34,6 +34,11 @@ def register(reg, prog):
         """Pipe.on_interest_end(cb): cb is called exactly once -- right now if the pipe has no interest (any more),
         otherwise later.  Both cases are explored."""
         st.log.append(('pipe_on_interest_end',) + tuple(args) + ((),))
+        # a pipe on which this very function has just registered an interested event handler (Pipe.on_event appends
+        # (callback, True), so Pipe._any_interest() holds) cannot be without interest: only the "later" case exists
+        for e in st.log:
+            if e[0] == 'pipe_on_event' and e[1].t.eq(args[0].t) and not any(k == 'is_interest' for k, _ in e[-1]) and len(e) == 4:
+                return [(st, VNone())]
         now = st.copy()
         now.ghost['$interest_already_ended'] = True
         outs = [(st, VNone())]
